@@ -15,15 +15,16 @@ const (
 )
 
 func GetRange(index, count, listLen uint32) (uint32, uint32) {
-	start := index * count
-	if start >= listLen {
+	// computed on 64 bits; index * count doesn't fit on 32 bits for big page indexes
+	start := uint64(index) * uint64(count)
+	if start >= uint64(listLen) {
 		return listLen, listLen
 	}
-	end := start + count
-	if end >= listLen {
-		return start, listLen
+	end := start + uint64(count)
+	if end >= uint64(listLen) {
+		return uint32(start), listLen
 	}
-	return start, end
+	return uint32(start), uint32(end)
 }
 
 func GetFrontierContext(c chain.Chain, addr types.Address) (*nom.Momentum, vm_context.AccountVmContext, error) {
